@@ -1,18 +1,18 @@
 #!/bin/bash
-# usage: tools/try_refactors.sh <dir with rK.diff> <k...>   — applies each behaviour-preserving change to a scratch
+# usage: [PROPS="C03 C06"] [RF_TAG=B] tools/try_refactors.sh <dir with rK.diff> <k...>   — applies each behaviour-preserving change to a scratch
 # worktree of /repo HEAD and runs every quick check against it from a snapshot of /verif; any alarm is a false alarm.
 src=$1; shift
 snap=/tmp/verif_snap_$$
 rm -rf $snap; mkdir -p $snap; rsync -a --exclude out --exclude .git /verif/ $snap/
 for k in "$@"; do
-  wt=/tmp/wt_rf_$k
+  wt=/tmp/wt_rf${RF_TAG}_$k
   git -C /repo worktree remove --force $wt 2>/dev/null
   git -C /repo worktree add -q --detach $wt HEAD
   (cd $wt && git apply $src/r$k.diff) || { echo "r$k: patch does not apply"; continue; }
   t=$(cd $wt && /venv/bin/python -m pytest -q -p no:cacheprovider 2>&1 | tail -1)
   echo "r$k tests: $t"
-  for p in C01 C02 C03 C04 C05 C06 C07 C08 C09 C10 C11 C12 C13 C14 C15 C16 C17 C18 C19 C20; do
-    out=$(cd $snap && VERIF_OUT=/tmp/vout_rf_$k VERIF_REPO=$wt ./check $p --tier quick 2>&1 | grep -E "VIOLATION|MACHINERY|DRIFT|tier=quick" | cut -c1-260 | head -6)
+  for p in ${PROPS:-C01 C02 C03 C04 C05 C06 C07 C08 C09 C10 C11 C12 C13 C14 C15 C16 C17 C18 C19 C20}; do
+    out=$(cd $snap && VERIF_OUT=/tmp/vout_rf${RF_TAG}_$k VERIF_REPO=$wt ./check $p --tier quick 2>&1 | grep -E "VIOLATION|MACHINERY|DRIFT|tier=quick" | cut -c1-260 | head -6)
     echo "r$k $p :: $out"
   done
   git -C /repo worktree remove --force $wt
